@@ -81,7 +81,7 @@ def build_test(pkg, name, tags="verif", timeout=1500):
     os.makedirs(os.path.join(BUILD, "bin"), exist_ok=True)
     suffix = ".%d" % os.getpid() if os.environ.get("VERIF_EXTRA_OVERLAY") else ""
     out = os.path.join(BUILD, "bin", name + suffix + ".test")
-    cmd = ["go", "test", "-c", "-tags", tags, "-overlay", overlay_file(), "-o", out, pkg]
+    cmd = ["go", "test", "-c", "-vet=off", "-tags", tags, "-overlay", overlay_file(), "-o", out, pkg]
     t0 = time.time()
     try:
         r = subprocess.run(cmd, cwd=HARNESS, env=go_env(), capture_output=True, text=True, timeout=timeout)
